@@ -77,7 +77,8 @@ def consts_of(c):
                 MaxOut=c["max_elems"], HoldRefs=False)
 
 
-SHAPES = ["direct", "map", "slice", "tree", "union1", "pluckmap", "flatmap", "filter", "starmap", "accumulate", "unique"]
+SHAPES = ["direct", "map", "slice", "tree", "union1", "pluckmap", "flatmap", "filter", "starmap", "accumulate", "unique",
+          "j_zip_latest", "j_union"]
 
 
 def run(tier, seed, mutant=None, only_validate=False):
